@@ -135,6 +135,23 @@ fn do_invocation(entry: &str, key: &str, valt: &str, tags: &Vec<(String, String)
         "dist_vu64" => invoke!(statsd_distribution, key, vu(), tags),
         "dist_vf64" => invoke!(statsd_distribution, key, vf(), tags),
         "set_i64" => invoke!(statsd_set, key, valt.parse::<i64>().unwrap(), tags),
+        "apanic" => {
+            // the value expression panics (caught by the caller): nothing is sent, and later invocations on this
+            // thread are unaffected
+            statsd_count!(
+                {
+                    ev(0);
+                    key
+                },
+                {
+                    ev(1);
+                    if !key.is_empty() || key.is_empty() {
+                        panic!("argument expression panics");
+                    }
+                    1i64
+                }
+            );
+        }
         "hnest" => {
             // the handler of the global client invokes a macro itself (its metric is accepted)
             HANDLER_EMITS.store(true, std::sync::atomic::Ordering::SeqCst);
@@ -383,6 +400,12 @@ fn main() {
             if (j + c) % 11 == 5 {
                 invs.push(format!("hnest/{}/{}/-/r{}", h(*rng.pick(&strs)), rng.below(100), rng.below(16)));
             }
+        }
+        // a run of invocations whose argument expression panics, then ordinary ones
+        if !unset && c % 6 == 2 {
+            let mut pre: Vec<String> = (0..(9 + c % 5)).map(|_| format!("apanic/{}/0/-/a", h(*rng.pick(&strs)))).collect();
+            pre.append(&mut invs);
+            invs = pre;
         }
         let case = format!("{} {} {} {} {}", if c % 2 == 1 { "macn" } else { "mac" }, prefix, if tags.is_empty() { "-".to_string() } else { tags.join(",") }, cid, invs.join(";"));
         writeln!(out, "{} => {}", case, run_case_in_child(&case)).unwrap();
